@@ -1,30 +1,14 @@
-import modelx as mx, warnings, traceback
+import modelx as mx, warnings
 warnings.simplefilter("ignore")
-# prefix bug: root "S" vs target in "S2"
+# root "S" vs target in "S2": DynBaseRefDict.wrap_impl compares dotted names by string prefix
 m = mx.new_model("M")
 S = m.new_space("S"); S2 = m.new_space("S2")
-S2.new_cells("foo", formula=lambda: 7)
+S2.new_cells("foo", formula="lambda: 7")
 S.formula = lambda i: None
-S.r = S2.foo      # auto mode, outside of S tree
-S.new_cells("c", formula=lambda: r())
+S.r = S2.foo      # auto mode, target outside of S's tree
+S.new_cells("c", formula="lambda: r()")
+print("S.r ->", S.r, " S.c() =", S.c())
 try:
     print("S[1].r ->", S[1].r, " value", S[1].c())
 except Exception as e:
-    print("prefix case FAIL:", type(e).__name__, e)
-
-# derived relative ref pointing above the dynbase root
-m = mx.new_model("M4")
-B = m.new_space("B"); Bc = B.new_space("child")
-Bc.up = B      # auto: ref to parent space
-Bc.formula = lambda i: None
-Bc.new_cells("c", formula=lambda: up.name)
-S = m.new_space("S", bases=B)
-print("S.child.up ->", S.child.up)
-try:
-    print("S.child[1].up ->", S.child[1].up, S.child[1].c())
-except Exception as e:
-    print("derived-relative-above-root FAIL:", type(e).__name__, e)
-try:
-    print("B.child[1].up ->", B.child[1].up, B.child[1].c())
-except Exception as e:
-    print("defined above-root FAIL:", type(e).__name__, e)
+    print("ItemSpace creation FAILED:", type(e).__name__, str(e).splitlines()[:3])
